@@ -70,6 +70,11 @@ func traverse(context Context, matchingNode *CandidateNode, operation *Operation
 			log.Debug("alias *%v is not linked to an anchor, nothing to traverse", matchingNode.Value)
 			return list.New(), nil
 		}
+		if prefs, ok := operation.Preferences.(traversePreferences); ok && prefs.DontFollowAlias {
+			// a merge works on a copy of its left operand, but an alias in that copy still points at the
+			// anchored node of the document: going through it would write there
+			return list.New(), nil
+		}
 		matchingNode = matchingNode.Alias
 		return traverse(context, matchingNode, operation)
 	default:
